@@ -151,6 +151,8 @@ import math
 for K in (2, 3, 4):
     for cs in (1, 0):
         for twice in (0, 1):
+            if K == 4 and twice:
+                continue      # exceeds 24 GB / 30 min; idempotence is decided for 2 and 3 members
             depth = int(math.ceil(math.log(K, 2)))
             QM(('C19',), 'sort.%s.K%d%s' % ('cs' if cs else 'ci', K, '.twice' if twice else ''), 'harness/sort.c', defs=['-DK=%d' % K, '-DCS=%d' % cs] + (['-DTWICE'] if twice else []), unwind=K + 1, link=['cJSON.c'],
                unwindset=ML(K + 3, 40) + ['sort_list:%d' % depth, 'strcmp.0:4', 'kcmp.0:4'], cost=K * K * (1 + twice), tiers=('quick', 'thorough') if (K == 2 or (K == 3 and not twice)) else ('thorough',),
